@@ -1,8 +1,8 @@
 package mdata
 
 import (
-	"github.com/lindb/lindb/series/field"
 	"fmt"
+	"github.com/lindb/lindb/series/field"
 	"math/rand"
 	"path/filepath"
 	"sort"
@@ -33,7 +33,13 @@ type target struct {
 	store    string // store name (path)
 	family   string // family name inside the target store
 	famStart int64  // start time of that family
+	day      int    // > 0: fed by that source day only (5m: one family per day); 0: by every source day
 }
+
+func (t target) key() string { return fmt.Sprintf("%d/%s", t.interval, t.family) }
+
+// accepts: the target family holds the data of that source day.
+func (t target) accepts(day int) bool { return t.day == 0 || t.day == day }
 
 func genC04(rng *rand.Rand, tier string) *core.Plan {
 	p := &core.Plan{Harness: "mdata", Prop: "C04", Cfg: map[string]int{}}
@@ -44,9 +50,19 @@ func genC04(rng *rand.Rand, tier string) *core.Plan {
 	p.Cfg["day"] = []int{1, 3, 31}[rng.Intn(3)]         // source segment: 2000-01-<day>
 	p.Cfg["targets"] = []int{1, 1, 2, 3}[rng.Intn(4)]   // bit0: 5m (month), bit1: 1h (year)
 	p.Cfg["crash_pm"] = []int{0, 0, 4, 15}[rng.Intn(4)] // process death per file-system operation during rollup ops
+	// a second source segment (another day of the month) in a third of the plans: two day stores feed the same month
+	// store (one 5m family per day) and the same family of the year store (1h); flush operations with t >= 3 go to it,
+	// and every rollup trigger goes to both stores (half of the time from two tasks at once)
+	if rng.Intn(3) == 0 {
+		p.Cfg["day2"] = map[int]int{1: 2, 3: 17, 31: 30}[p.Cfg["day"]]
+		p.Cfg["par_trigger"] = rng.Intn(2)
+	}
 	n := 3 + rng.Intn(9)
 	for i := 0; i < n; i++ {
 		fam := rng.Intn(3) // source family (hour) index
+		if p.Cfg["day2"] != 0 && rng.Intn(2) == 0 {
+			fam += 3 // ... of the second source day
+		}
 		switch r := rng.Intn(100); {
 		case r < 45:
 			p.Ops = append(p.Ops, core.Op{K: "flush", T: fam, A: int64(1 + rng.Intn(2)), B: int64(1 + rng.Intn(4)), C: int64(rng.Intn(4)), S: fmt.Sprint(rng.Intn(1 << 30))})
@@ -81,24 +97,27 @@ func genC04(rng *rand.Rand, tier string) *core.Plan {
 var hours = []int{0, 5, 23}
 
 type c04 struct {
-	c        *core.RunCtx
-	sim      *simrt.Sim
-	base     string
-	srcName  string
-	day      int
-	targets  []target
-	mgr      kv.StoreManager
-	src      kv.Store
-	tstores  map[string]kv.Store
-	models   map[int64]model // target interval -> expected content (all source files flushed so far)
-	metrics  []uint32
-	nMetrics int
-	inc      int
-	dead     bool
-	armed    bool
-	crashP   float64
+	c          *core.RunCtx
+	sim        *simrt.Sim
+	base       string
+	srcName    string
+	day        int
+	targets    []target
+	mgr        kv.StoreManager
+	src        kv.Store
+	tstores    map[string]kv.Store
+	models     map[string]model // target (interval, family) -> expected content (all source files flushed so far)
+	days       []int            // source days; days[0] is the primary one
+	srcs       []kv.Store       // one source store per day
+	srcNames   []string
+	metrics    []uint32
+	nMetrics   int
+	inc        int
+	dead       bool
+	armed      bool
+	crashP     float64
 	skipSettle bool
-	window   int // rollup_cw: 1 = waiting for a target commit, 2 = die at the next operation on the source store
+	window     int // rollup_cw: 1 = waiting for a target commit, 2 = die at the next operation on the source store
 
 	files        int                    // source files flushed so far
 	epoch        int                    // rollup triggers and restarts so far
@@ -124,25 +143,62 @@ func (h *c04) open() error {
 	}
 	opt := kv.DefaultStoreOption()
 	opt.Source = timeutil.Interval(srcInterval)
+	seenIv := map[int64]bool{}
 	for _, t := range h.targets {
-		opt.Rollup = append(opt.Rollup, timeutil.Interval(t.interval))
+		if !seenIv[t.interval] {
+			seenIv[t.interval] = true
+			opt.Rollup = append(opt.Rollup, timeutil.Interval(t.interval))
+		}
 	}
-	var err error
-	h.src, err = h.mgr.CreateStore(h.srcName, opt)
-	return err
+	h.srcs = h.srcs[:0]
+	for _, name := range h.srcNames {
+		st, err := h.mgr.CreateStore(name, opt)
+		if err != nil {
+			return err
+		}
+		h.srcs = append(h.srcs, st)
+	}
+	h.src = h.srcs[0]
+	return nil
+}
+
+// forAllSources runs fn for every source store: one after the other, or - plans with par_trigger - each in its own task.
+func (h *c04) forAllSources(fn func(st kv.Store)) {
+	if len(h.srcs) == 1 || h.c.Plan.C("par_trigger", 0) == 0 {
+		for _, st := range h.srcs {
+			fn(st)
+		}
+		return
+	}
+	done := 0
+	for i, st := range h.srcs {
+		st := st
+		h.sim.Spawn(fmt.Sprintf("trigger-day%d", i), func() { fn(st); done++ })
+	}
+	h.sim.Await(func() bool { return done == len(h.srcs) || h.dead })
+	h.sim.Fault("rollup-of-two-source-days-at-once")
+}
+
+func (h *c04) isSourcePath(path string) bool {
+	for _, n := range h.srcNames {
+		if path == n || strings.HasPrefix(path, n+"/") {
+			return true
+		}
+	}
+	return false
 }
 
 func (h *c04) famOpt() kv.FamilyOption {
 	return kv.FamilyOption{Merger: string(metricsdata.MetricDataMerger), CompactThreshold: h.c.Plan.C("threshold", 0), RollupThreshold: 1}
 }
 
-func (h *c04) srcFamily(hour int) (kv.Family, error) {
-	return h.src.CreateFamily(fmt.Sprint(hour), h.famOpt())
+func (h *c04) srcFamily(di, hour int) (kv.Family, error) {
+	return h.srcs[di].CreateFamily(fmt.Sprint(hour), h.famOpt())
 }
 
 func (h *c04) families() []kv.Family {
 	var fs []kv.Family
-	for _, st := range append([]kv.Store{h.src}, h.sortedTargets()...) {
+	for _, st := range append(append([]kv.Store{}, h.srcs...), h.sortedTargets()...) {
 		names := st.ListFamilyNames()
 		sort.Strings(names)
 		for _, n := range names {
@@ -196,9 +252,10 @@ func (h *c04) awaitIdle() {
 
 func (h *c04) pending() int {
 	n := 0
-	names := h.src.ListFamilyNames()
-	for _, fn := range names {
-		n += kv.VerifPendingRollupFiles(h.src.GetFamily(fn))
+	for _, st := range h.srcs {
+		for _, fn := range st.ListFamilyNames() {
+			n += kv.VerifPendingRollupFiles(st.GetFamily(fn))
+		}
 	}
 	return n
 }
@@ -227,7 +284,11 @@ func (h *c04) check(when string) {
 		}
 		// other families of the target store must stay empty
 		for _, fn := range st.ListFamilyNames() {
-			if fn == t.family {
+			isTarget := false
+			for _, t2 := range h.targets {
+				isTarget = isTarget || (t2.store == t.store && t2.family == fn)
+			}
+			if isTarget {
 				continue
 			}
 			snap := st.GetFamily(fn).GetSnapshot()
@@ -239,7 +300,7 @@ func (h *c04) check(when string) {
 			}
 		}
 		interval := t.interval
-		if !compare(c, "C04", fmt.Sprintf("%s: target interval %dms", when, t.interval), h.models[t.interval], obs, func(k cellKey, got []float64) bool {
+		if !compare(c, "C04", fmt.Sprintf("%s: target interval %dms family %s", when, t.interval, t.family), h.models[t.key()], obs, func(k cellKey, got []float64) bool {
 			return h.strictFirstLast(when, interval, k, got)
 		}) {
 			return
@@ -250,23 +311,32 @@ func (h *c04) check(when string) {
 
 func runC04(c *core.RunCtx) {
 	sim := c.Sim
-	h := &c04{c: c, sim: sim, base: filepath.Join(c.Dir, "db"), day: c.Plan.C("day", 1), models: map[int64]model{}, origins: map[originKey][]origin{}, nMetrics: c.Plan.C("metrics", 1),
+	h := &c04{c: c, sim: sim, base: filepath.Join(c.Dir, "db"), day: c.Plan.C("day", 1), models: map[string]model{}, origins: map[originKey][]origin{}, nMetrics: c.Plan.C("metrics", 1),
 		crashP: float64(c.Plan.C("crash_pm", 0)) / 1000}
 	h.srcName = filepath.Join(h.base, "day", fmt.Sprintf("200001%02d", h.day))
+	h.days = []int{h.day}
+	if d2 := c.Plan.C("day2", 0); d2 != 0 {
+		h.days = append(h.days, d2)
+	}
+	for _, d := range h.days {
+		h.srcNames = append(h.srcNames, filepath.Join(h.base, "day", fmt.Sprintf("200001%02d", d)))
+	}
 	for i := 0; i < h.nMetrics; i++ {
 		h.metrics = append(h.metrics, uint32(10+i))
 	}
 	tbits := c.Plan.C("targets", 1)
 	if tbits&1 != 0 {
 		// 5 minutes: month calculator, segment = month, family = day of month, slots within the day
-		h.targets = append(h.targets, target{interval: 5 * 60 * 1000, store: filepath.Join(h.base, "month", "200001"), family: fmt.Sprint(h.day), famStart: h.dayStart()})
+		for _, d := range h.days {
+			h.targets = append(h.targets, target{interval: 5 * 60 * 1000, store: filepath.Join(h.base, "month", "200001"), family: fmt.Sprint(d), famStart: jan1 + int64(d-1)*dayMs, day: d})
+		}
 	}
 	if tbits&2 != 0 {
 		// 1 hour: year calculator, segment = year, family = month, slots within the month
 		h.targets = append(h.targets, target{interval: hourMs, store: filepath.Join(h.base, "year", "2000"), family: "1", famStart: jan1})
 	}
 	for _, t := range h.targets {
-		h.models[t.interval] = model{}
+		h.models[t.key()] = model{}
 	}
 	pre := func(op, path string) {
 		if !h.armed || h.dead || sim.CurInc() != h.inc {
@@ -275,7 +345,7 @@ func runC04(c *core.RunCtx) {
 		if h.window > 0 {
 			// the process dies between the commit in a target family and the commit in the source family: at the
 			// first operation on the source store after a target store's manifest was synced
-			inSrc := strings.HasPrefix(path, h.srcName+"/") || path == h.srcName
+			inSrc := h.isSourcePath(path)
 			switch {
 			case h.window == 1 && !inSrc && op == "sync" && strings.Contains(path, "MANIFEST"):
 				h.window = 2
@@ -322,7 +392,7 @@ func runC04(c *core.RunCtx) {
 				h.skipSettle = false
 			} else if incarnation > 0 {
 				// after a process death: finish whatever rollup is still registered, then judge
-				h.src.ForceRollup()
+				h.forAllSources(func(st kv.Store) { st.ForceRollup() })
 				h.awaitIdle()
 				h.check("after restart + rollup")
 			}
@@ -333,7 +403,8 @@ func runC04(c *core.RunCtx) {
 				switch op.K {
 				case "flush":
 					hour := hours[op.T%3]
-					f, err := h.srcFamily(hour)
+					di := (op.T / 3) % len(h.days)
+					f, err := h.srcFamily(di, hour)
 					if err != nil {
 						c.Anomaly("source family: %v", err)
 						return
@@ -343,12 +414,15 @@ func runC04(c *core.RunCtx) {
 						c.Anomaly("write file: %v", err)
 						return
 					}
-					famStart := h.dayStart() + int64(hour)*hourMs
+					famStart := jan1 + int64(h.days[di]-1)*dayMs + int64(hour)*hourMs
 					h.files++
 					for _, t := range h.targets {
+						if !t.accepts(h.days[di]) {
+							continue
+						}
 						tt := t
 						fileNo := h.files
-						h.models[t.interval].addFile(fc, func(_ uint32, s uint16) int { return int((famStart + int64(s)*srcInterval) / tt.interval) },
+						h.models[t.key()].addFile(fc, func(_ uint32, s uint16) int { return int((famStart + int64(s)*srcInterval) / tt.interval) },
 							func(k cellKey, v float64, s uint16) {
 								ok := originKey{tt.interval, k}
 								h.origins[ok] = append(h.origins[ok], origin{epoch: h.epoch, file: fileNo, at: famStart + int64(s)*srcInterval, v: v})
@@ -358,7 +432,7 @@ func runC04(c *core.RunCtx) {
 				case "rollup_cw":
 					h.epoch++
 					h.armed, h.window = true, 1
-					h.src.ForceRollup()
+					h.forAllSources(func(st kv.Store) { st.ForceRollup() })
 					h.awaitIdle()
 					h.armed, h.window = false, 0
 				case "rollup", "rollup2":
@@ -372,10 +446,10 @@ func runC04(c *core.RunCtx) {
 						sim.Await(func() bool { return done == 2 || h.dead })
 						sim.Fault("parallel-rollup-trigger")
 					} else {
-						h.src.ForceRollup()
+						h.forAllSources(func(st kv.Store) { st.ForceRollup() })
 						if op.K == "rollup2" {
 							sim.YieldNow()
-							h.src.ForceRollup()
+							h.forAllSources(func(st kv.Store) { st.ForceRollup() })
 							sim.Fault("overlapping-rollup-trigger")
 						}
 					}
@@ -384,18 +458,20 @@ func runC04(c *core.RunCtx) {
 				case "tick":
 					h.epoch++
 					h.armed = h.crashP > 0
-					kv.VerifStoreCompact(h.src)
+					h.forAllSources(func(st kv.Store) { kv.VerifStoreCompact(st) })
 					h.awaitIdle()
 					h.armed = false
 				case "compact":
-					if f := h.src.GetFamily(fmt.Sprint(hours[op.T%3])); f != nil {
+					if f := h.srcs[(op.T/3)%len(h.srcs)].GetFamily(fmt.Sprint(hours[op.T%3])); f != nil {
 						f.Compact()
 						h.awaitIdle()
 					}
 					continue
 				case "reopen":
 					h.awaitIdle()
-					_ = h.mgr.CloseStore(h.srcName)
+					for _, n := range h.srcNames {
+						_ = h.mgr.CloseStore(n)
+					}
 					for _, st := range h.sortedTargets() {
 						_ = h.mgr.CloseStore(st.Name())
 					}
@@ -426,10 +502,10 @@ func runC04(c *core.RunCtx) {
 // ---- first / last fields: the value of the latest / earliest source slot ---------------------------------
 
 type origin struct {
-	epoch int  // number of rollup triggers (and restarts) before the flush: files of one epoch go through one merge
-	file int   // source file (flush) number
-	at   int64 // timestamp of the source slot
-	v    float64
+	epoch int   // number of rollup triggers (and restarts) before the flush: files of one epoch go through one merge
+	file  int   // source file (flush) number
+	at    int64 // timestamp of the source slot
+	v     float64
 }
 
 type originKey struct {
